@@ -1,4 +1,20 @@
+import json
+import os
 PROPERTIES = ['C20', 'C02']
+_here = os.path.dirname(os.path.abspath(__file__))
+
+
+def open_findings():
+    try:
+        import sys
+        sys.path.insert(0, os.path.join(os.path.dirname(os.path.dirname(_here)), 'engine'))
+        import runner
+        return {k['id'] for k in runner.load_findings().get('open', [])}
+    except Exception:
+        kp = os.path.join(_here, 'kf.json')
+        return {k['id'] for k in json.load(open(kp))} if os.path.exists(kp) else set()
+
+
 BOUNDS = {
     'quick': 'invoke / reference_wrapper / bind_front / not_fn / function_ref: every listed call form once, all int arguments and captured states symbolic (full 32-bit range); '
              'inplace_function<int(int),16>: two objects, every operation (14 codes) from every abstract pre-state (empty | one of 6 target kinds: empty class, function pointer, '
@@ -14,6 +30,8 @@ ASSUMPTIONS = [
     'C20: function_ref / inplace_function / not_fn<f>() have no std counterpart in C++20 (libstdc++ 12): explicit expected call log instead of std',
 ]
 STD_OPS = ['inv_fn', 'inv_functor', 'inv_args', 'inv_memfn', 'inv_memdata', 'refw', 'bindf', 'bindf_args', 'notfn']
+# loops: comparison over the recorded ints (calls * 9 + values) / k_scribble (64) / sym_bytes of a wrapper object (<= 48)
+UW = {'inv_fn': 30, 'inv_functor': 57, 'inv_args': 48, 'inv_memfn': 84, 'inv_memdata': 12, 'refw': 49, 'bindf': 94, 'bindf_args': 57, 'notfn': 66, 'fr_fnptr': 67}
 PLAIN = ['notfn_stateless', 'fr_basic', 'fr_copy', 'fr_temp', 'fr_fnptr', 'ipf_misc']
 
 
@@ -21,17 +39,26 @@ def queries(tier, prop='C20'):
     ub = prop == 'C02'
     out = []
     base = dict(ub=ub, nofunc=ub, budget=120)
+    opn = open_findings()
     for e in STD_OPS + PLAIN:
-        if ub and e == 'fr_fnptr':
-            continue
-        out.append(dict(entry='q_' + e, cfg={'CAP': 16}, unwind=66 if e == 'fr_fnptr' else 12, **base))
+        q = dict(entry='q_' + e, cfg={'CAP': 16}, unwind=UW.get(e, 40), **base)
+        if e == 'fr_fnptr' and 'C20_function_ref_fnptr_dangles' in opn:
+            q['confirm_only'] = True    # the whole query lies inside the open known-finding region
+        out.append(q)
     caps = [16] if tier == 'quick' else [16, 32]
     for cap in caps:
-        uw = 8 + cap + 2
+        uw = 8 + cap + 10
         us = {'ll_memcpy.0': cap + 24, 'll_memset.0': cap + 24, 'll_memmove.0': cap + 24, 'll_memmove.1': cap + 24}
-        out.append(dict(entry='q_ipf_step', cfg={'CAP': cap}, unwind=uw, unwindset=us, **base))
+        for op in range(14):
+            two = op in (1, 2, 3, 4)
+            ijs = [(0, 0), (0, 1), (1, 0), (1, 1)] if two else [(0, 1), (1, 0)] if op in (11, 12) else [(0, 0), (1, 1)]
+            if tier == 'quick':     # the two objects are interchangeable (both pre-states symbolic): quick keeps i = 0
+                ijs = [x for x in ijs if x[0] == 0]
+            for (i, j) in ijs:
+                out.append(dict(entry='q_ipf_step_%d_%d%d' % (op, i, j), cfg={'CAP': cap}, unwind=uw, unwindset=us, **base))
         k = 3 if tier == 'quick' else (5 if cap == 16 else 4)
-        out.append(dict(entry='q_ipf_hist', cfg={'CAP': cap, 'KSTEPS': k}, unwind=uw, unwindset=us, **dict(base, budget=600 if tier != 'quick' else 120)))
+        k = int(os.environ.get('C20_HIST_K', k))
+        out.append(dict(entry='q_ipf_hist', cfg={'CAP': cap, 'KSTEPS': k}, unwind=uw, unwindset=us, **dict(base, budget=int(os.environ.get('C20_HIST_BUDGET', 600 if tier != 'quick' else 120)), solver=os.environ.get('C20_HIST_SOLVER', 'minisat'))))
         if cap != 16:
-            out.append(dict(entry='q_ipf_misc', cfg={'CAP': cap}, unwind=12, **base))
+            out.append(dict(entry='q_ipf_misc', cfg={'CAP': cap}, unwind=8 + cap + 10, **base))
     return out
